@@ -21,7 +21,8 @@ def run(ctx):
     ctx.rule("R11-6", "the rewritten word keeps the text around the substitution: the new line is produced by "
                       "Regex::replace* on the old line (which keeps unmatched text), not assembled from capture groups of "
                       "an unanchored pattern")
-    ctx.rule("R11-5", "between stdout and the splice only trailing newlines are removed")
+    ctx.rule("R11-5", "between stdout and the splice only trailing newlines are removed; the captured stdout is read on every "
+                      "path from the capturing run to the splice (the output is not made to depend on the command's status)")
     ctx.rule("R11-8", "cmd runs exactly once: no function expands the same line twice - on no path do two call sites that "
                       "(transitively) reach shell::do_expansion receive text derived from the same parameter")
     ctx.rule("R11-9", "never a hang: the pattern that splices the output in is at least as wide as the loop's gate. The gate "
@@ -176,6 +177,24 @@ def trim_rule(ctx, crate, b):
                    detail=None if ok else "leading blanks and trailing spaces/tabs of the output are lost")
             n += 1
     ctx.require(n >= 1, "R11-5", "R11-5|%s|anchor" % b.path, "no use of the captured stdout found", b.path)
+    # the captured text is used whatever the command's status was: every path from a capturing run_pipeline call to the
+    # next token / the return passes one of the reads of stdout (no `if status != 0 { return "" }` around it)
+    uses = {bb for bb, ls in seen}
+    k = 0
+    for rb, t, c in b.calls():
+        if not c.endswith("core::run_pipeline") or not b.succs[rb]:
+            continue
+        loop = None
+        for h, blocks in b.loops().items():
+            if rb in blocks and (loop is None or len(blocks) < len(loop[1])):
+                loop = (h, blocks)
+        ends = set(b.exits()) | ({loop[0]} if loop else set())
+        ok = bool(uses) and flow.must_pass(b, b.succs[rb][0], uses, ends)
+        ctx.ob("R11-5", b.path, "the captured stdout is read on every path after the command ran (whatever its status)", ok,
+               key="R11-5|%s|stdout-always-read#%d" % (b.path, k), where=b.loc(rb), crate=crate.kind,
+               detail=None if ok else "some path from the capturing run to the splice does not read stdout: the output of a "
+               "command that wrote text and then failed is replaced by nothing")
+        k += 1
 
 
 def stutter_rule(ctx, crate):
